@@ -180,10 +180,7 @@ mod verif_c03_packet {
     }
 
     /// Handshake and 0-RTT: nothing behind the connection ids belongs to the header.
-    #[kani::proof]
-    #[kani::unwind(3)]
-    fn header_handshake_zero_rtt_contract() {
-        const M: usize = 46;
+    fn header_handshake_zero_rtt_contract_body<const M: usize>() {
         let b: [u8; M] = kani::any();
         let n: usize = kani::any();
         kani::assume(n <= M);
@@ -201,18 +198,16 @@ mod verif_c03_packet {
             (Err(nom::Err::Incomplete(_)), c) => assert!(c == Cids::Incomplete, "C03.packet.header.hs0rtt.incomplete_iff_cids_truncated"),
             _ => {}
         }
-        kani::cover!(matches!(cids, Cids::Ok { dl: 20, sl: 20, .. }), "C03.packet.header.hs0rtt.reach_max_cids");
+        kani::cover!(matches!(cids, Cids::Ok { dl: 20, .. }), "C03.packet.header.hs0rtt.reach_dcid_20");
+        kani::cover!(matches!(cids, Cids::Ok { sl: 20, .. }), "C03.packet.header.hs0rtt.reach_scid_20");
         kani::cover!(matches!(cids, Cids::Ok { dl: 0, sl: 0, pos: 2 }) && n == 2, "C03.packet.header.hs0rtt.reach_empty_cids");
         kani::cover!(cids == Cids::TooLong && n == 1, "C03.packet.header.hs0rtt.reach_dcid_len_over_20");
         kani::cover!(cids == Cids::TooLong && b[0] == 0, "C03.packet.header.hs0rtt.reach_scid_len_over_20");
-        kani::cover!(cids == Cids::Incomplete && n == 41, "C03.packet.header.hs0rtt.reach_truncated");
+        kani::cover!(cids == Cids::Incomplete && n == 25, "C03.packet.header.hs0rtt.reach_truncated");
     }
 
     /// Initial: Token Length (i) + Token behind the connection ids (RFC 9000 §17.2.2).
-    #[kani::proof]
-    #[kani::unwind(9)]
-    fn header_initial_contract() {
-        const M: usize = 56;
+    fn header_initial_contract_body<const M: usize>() {
         let b: [u8; M] = kani::any();
         let n: usize = kani::any();
         kani::assume(n <= M);
@@ -239,19 +234,16 @@ mod verif_c03_packet {
         } else {
             assert!(r.is_err(), "C03.packet.header.initial.err_if_cids_bad");
         }
-        kani::cover!(matches!(cids, Cids::Ok { dl: 20, sl: 20, .. }) && r.is_ok(), "C03.packet.header.initial.reach_max_cids_ok");
+        kani::cover!(matches!(cids, Cids::Ok { dl: 20, .. }) && r.is_ok(), "C03.packet.header.initial.reach_dcid_20_ok");
         kani::cover!(matches!(cids, Cids::Ok { pos: 2, .. }) && b[2] == 0x7f && r.is_err(), "C03.packet.header.initial.reach_token_len_16383_truncated");
         kani::cover!(matches!(cids, Cids::Ok { pos: 2, .. }) && b[2] >= 0xc0 && n >= 10 && r.is_err(), "C03.packet.header.initial.reach_huge_token_len");
-        kani::cover!(matches!(cids, Cids::Ok { pos: 2, .. }) && b[2] == 40 && r.is_ok(), "C03.packet.header.initial.reach_token_40");
+        kani::cover!(matches!(cids, Cids::Ok { pos: 2, .. }) && b[2] == 20 && r.is_ok(), "C03.packet.header.initial.reach_token_20");
         kani::cover!(matches!(cids, Cids::Ok { pos: 2, .. }) && b[2] == 0x40 && b[3] == 5 && r.is_ok(), "C03.packet.header.initial.reach_nonminimal_token_len");
         kani::cover!(cids == Cids::TooLong, "C03.packet.header.initial.reach_cid_len_over_20");
     }
 
     /// Retry: everything behind the connection ids is token || 128-bit integrity tag (RFC 9000 §17.2.5).
-    #[kani::proof]
-    #[kani::unwind(3)]
-    fn header_retry_contract() {
-        const M: usize = 64;
+    fn header_retry_contract_body<const M: usize>() {
         let b: [u8; M] = kani::any();
         let n: usize = kani::any();
         kani::assume(n <= M);
@@ -277,7 +269,7 @@ mod verif_c03_packet {
         } else {
             assert!(r.is_err(), "C03.packet.header.retry.err_if_cids_bad");
         }
-        kani::cover!(matches!(cids, Cids::Ok { dl: 20, sl: 20, .. }) && r.is_ok(), "C03.packet.header.retry.reach_max_cids_ok");
+        kani::cover!(matches!(cids, Cids::Ok { dl: 20, .. }) && r.is_ok(), "C03.packet.header.retry.reach_dcid_20_ok");
         kani::cover!(matches!(cids, Cids::Ok { pos: 2, .. }) && n == 18, "C03.packet.header.retry.reach_empty_token");
         kani::cover!(matches!(cids, Cids::Ok { pos: 2, .. }) && n == 17, "C03.packet.header.retry.reach_no_tag");
         kani::cover!(cids == Cids::TooLong, "C03.packet.header.retry.reach_cid_len_over_20");
@@ -285,10 +277,7 @@ mod verif_c03_packet {
 
     /// Version Negotiation: behind the ids a list of 32-bit versions up to the end of the datagram
     /// (RFC 9000 §17.2.1); a trailing partial version makes the packet incomplete.
-    #[kani::proof]
-    #[kani::unwind(9)]
-    fn header_vn_contract() {
-        const M: usize = 30; // <= 7 versions: many_till loop <= 8 iterations
+    fn header_vn_contract_body<const M: usize>() {
         let b: [u8; M] = kani::any();
         let n: usize = kani::any();
         kani::assume(n <= M);
@@ -315,18 +304,15 @@ mod verif_c03_packet {
         } else {
             assert!(r.is_err(), "C03.packet.header.vn.err_if_cids_bad");
         }
-        kani::cover!(matches!(cids, Cids::Ok { pos: 2, .. }) && n == 30 && r.is_ok(), "C03.packet.header.vn.reach_7_versions");
+        kani::cover!(matches!(cids, Cids::Ok { pos: 2, .. }) && n == M && r.is_ok(), "C03.packet.header.vn.reach_max_versions");
         kani::cover!(matches!(cids, Cids::Ok { pos: 2, .. }) && n == 2 && r.is_ok(), "C03.packet.header.vn.reach_no_versions");
         kani::cover!(matches!(cids, Cids::Ok { pos: 2, .. }) && n == 5, "C03.packet.header.vn.reach_partial_version");
-        kani::cover!(matches!(cids, Cids::Ok { dl: 20, sl: 4, .. }) && r.is_ok(), "C03.packet.header.vn.reach_long_dcid");
+        kani::cover!(matches!(cids, Cids::Ok { dl: 20, .. }) && r.is_ok(), "C03.packet.header.vn.reach_dcid_20");
         kani::cover!(cids == Cids::TooLong, "C03.packet.header.vn.reach_cid_len_over_20");
     }
 
     /// 1-RTT: DCID of the locally configured length, nothing else (RFC 9000 §17.3.1).
-    #[kani::proof]
-    #[kani::unwind(3)]
-    fn header_short_contract() {
-        const M: usize = 24;
+    fn header_short_contract_body<const M: usize>() {
         let b: [u8; M] = kani::any();
         let n: usize = kani::any();
         kani::assume(n <= M);
@@ -349,5 +335,445 @@ mod verif_c03_packet {
         kani::cover!(dcid_len == 20 && n == 20, "C03.packet.header.short.reach_dcid_20_exact");
         kani::cover!(dcid_len == 0 && n == 0, "C03.packet.header.short.reach_dcid_0_empty");
         kani::cover!(dcid_len == 8 && n == 7, "C03.packet.header.short.reach_truncated");
+    }
+
+    // ------------------------------------------------------------------------------------------
+    // be_payload (Length varint, payload extent, header-protection sampling rule)
+    // ------------------------------------------------------------------------------------------
+
+    /// `be_payload(pkty, datagram, remain_len)`; precondition (established by be_packet: `remain` is what
+    /// be_header left of the datagram): remain_len <= datagram.len().
+    /// Ok((bytes, offset)) <=> a complete Length varint L >= 20 with L bytes behind it; then
+    /// `bytes` = datagram prefix up to the end of the payload, `offset` = start of the payload,
+    /// so 1 <= offset and offset + 20 <= bytes.len(); the datagram keeps exactly the bytes behind it.
+    fn payload_contract_body<const M: usize>() {
+        let b: [u8; M] = kani::any();
+        let n: usize = kani::any();
+        kani::assume(n <= M);
+        let remain_len: usize = kani::any();
+        kani::assume(remain_len <= n); // precondition, see above
+        let pkty = Type::Long(LongTy::V1(Ver1::HANDSHAKE)); // only copied into the error value
+        let mut dg = BytesMut::from(&b[..]);
+        dg.truncate(n);
+        let off0 = n - remain_len;
+        let len = spec_varint(&b, off0, n);
+        match (be_payload(pkty, &mut dg, remain_len), len) {
+            (Ok((bytes, offset)), Some((pl, w))) => {
+                assert!(pl >= 20, "C03.packet.payload.ok_only_if_at_least_20_bytes_to_sample");
+                assert!(pl <= (n - off0 - w) as u64, "C03.packet.payload.ok_only_if_payload_available");
+                let pl = pl as usize;
+                assert!(offset == off0 + w, "C03.packet.payload.offset_is_behind_length_field");
+                assert!(bytes.len() == off0 + w + pl, "C03.packet.payload.packet_ends_with_payload");
+                assert!(offset + 20 <= bytes.len(), "C03.packet.payload.offset_plus_20_inside_packet");
+                assert!(dg.len() + bytes.len() == n, "C03.packet.payload.splits_datagram_without_loss");
+                let i: usize = kani::any();
+                assert!(i >= bytes.len() || bytes[i] == b[i], "C03.packet.payload.packet_bytes_are_datagram_prefix");
+                let j: usize = kani::any();
+                assert!(j >= dg.len() || dg[j] == b[bytes.len() + j], "C03.packet.payload.rest_is_datagram_suffix");
+            }
+            (Ok(_), None) => assert!(false, "C03.packet.payload.ok_only_if_length_field_complete"),
+            (Err(Error::IncompleteHeader(..)), l) => {
+                assert!(match l { None => true, Some((pl, w)) => pl > (n - off0 - w) as u64 }, "C03.packet.payload.incomplete_only_if_truncated");
+                assert!(dg.len() == n, "C03.packet.payload.err_leaves_datagram_untouched");
+            }
+            (Err(Error::UnderSampling(_, got)), Some((pl, w))) => {
+                assert!(pl < 20 && pl <= (n - off0 - w) as u64 && got as u64 == pl, "C03.packet.payload.under_sampling_iff_payload_lt_20");
+                assert!(dg.len() == n, "C03.packet.payload.err_leaves_datagram_untouched");
+            }
+            (Err(_), _) => assert!(false, "C03.packet.payload.no_other_error"),
+        }
+        kani::cover!(off0 == 7 && matches!(len, Some((20, 8))) && n == M, "C03.packet.payload.reach_len_20_in_8_byte_varint");
+        kani::cover!(off0 == 0 && matches!(len, Some((19, 1))) && n == 20, "C03.packet.payload.reach_under_sampling_19");
+        kani::cover!(matches!(len, Some((21, 1))) && n == off0 + 1 + 21 + 3, "C03.packet.payload.reach_coalesced_rest");
+        kani::cover!(matches!(len, Some((pl, 8))) if pl >= (1 << 61), "C03.packet.payload.reach_huge_length");
+        kani::cover!(remain_len == 0, "C03.packet.payload.reach_nothing_left");
+    }
+
+    #[kani::proof]
+    #[kani::unwind(9)]
+    #[kani::stub(core::fmt::write, noop_fmt_write)]
+    fn payload_contract() {
+        //   "C03.packet.payload.ok_only_if_at_least_20_bytes_to_sample" "C03.packet.payload.ok_only_if_payload_available"
+        //   "C03.packet.payload.offset_is_behind_length_field" "C03.packet.payload.packet_ends_with_payload"
+        //   "C03.packet.payload.offset_plus_20_inside_packet" "C03.packet.payload.splits_datagram_without_loss"
+        //   "C03.packet.payload.packet_bytes_are_datagram_prefix" "C03.packet.payload.rest_is_datagram_suffix"
+        //   "C03.packet.payload.ok_only_if_length_field_complete" "C03.packet.payload.incomplete_only_if_truncated"
+        //   "C03.packet.payload.err_leaves_datagram_untouched" "C03.packet.payload.under_sampling_iff_payload_lt_20"
+        //   "C03.packet.payload.no_other_error"
+        payload_contract_body::<36>();
+    }
+
+    // ------------------------------------------------------------------------------------------
+    // be_packet / PacketReader::next : glue over the contracts above
+    // ------------------------------------------------------------------------------------------
+
+    fn any_cid() -> ConnectionId {
+        let c = ConnectionId { len: kani::any(), bytes: kani::any() };
+        kani::assume(c.len as usize <= crate::cid::MAX_CID_SIZE);
+        c
+    }
+
+    /// any result permitted by `type_total_contract` (clause ids in brackets)
+    fn contract_be_packet_type(input: &[u8]) -> nom::IResult<&[u8], Type, Error> {
+        let n = input.len();
+        if n == 0 {
+            return Err(nom::Err::Incomplete(nom::Needed::new(1))); // [incomplete_only_if_short_input]
+        }
+        if kani::any() {
+            let spin = if kani::any() { SpinBit::One } else { SpinBit::Zero };
+            return Ok((&input[1..], Type::Short(OneRtt(spin)))); // [short_consumes_1, rest_is_suffix_of_input]
+        }
+        if n < 5 {
+            return Err(nom::Err::Incomplete(nom::Needed::new(5 - n)));
+        }
+        match kani::any::<u8>() % 7 {
+            0 => Err(nom::Err::Error(Error::InvalidFixedBit)), // [no_other_error, no_failure]
+            1 => Err(nom::Err::Error(Error::UnsupportedVersion(kani::any()))),
+            2 => Ok((&input[5..], Type::Long(LongTy::VersionNegotiation))), // [long_consumes_5]
+            3 => Ok((&input[5..], Type::Long(LongTy::V1(Ver1::INITIAL)))),
+            4 => Ok((&input[5..], Type::Long(LongTy::V1(Ver1::ZERO_RTT)))),
+            5 => Ok((&input[5..], Type::Long(LongTy::V1(Ver1::HANDSHAKE)))),
+            _ => Ok((&input[5..], Type::Long(LongTy::V1(Ver1::RETRY)))),
+        }
+    }
+
+    /// any `Ok`/`Incomplete` result permitted by the header_*_contract harnesses for connection-id length
+    /// bytes <= 20: the header variant follows the type [variant_matches_type], the remainder is a suffix of
+    /// the input [rest_starts_behind_*], VN and Retry consume everything [consumes_whole_datagram], a long
+    /// header consumes at least the two length bytes, Initial one more; errors are Incomplete.
+    fn contract_be_header_legal(packet_type: Type, dcid_len: usize, input: &[u8]) -> nom::IResult<&[u8], Header> {
+        let n = input.len();
+        match packet_type {
+            Type::Short(OneRtt(spin)) => {
+                if n < dcid_len {
+                    return Err(nom::Err::Incomplete(nom::Needed::new(dcid_len - n)));
+                }
+                let mut dcid = any_cid();
+                kani::assume(dcid.len as usize == dcid_len);
+                dcid.len = dcid_len as u8;
+                Ok((&input[dcid_len..], Header::OneRtt(OneRttHeader::new(spin, dcid))))
+            }
+            Type::Long(ty) => {
+                if kani::any() {
+                    return Err(nom::Err::Incomplete(nom::Needed::Unknown));
+                }
+                let k: usize = kani::any();
+                kani::assume(k >= 2 && k <= n);
+                let b = LongHeaderBuilder::with_cid(any_cid(), any_cid());
+                match ty {
+                    LongTy::VersionNegotiation => {
+                        kani::assume(k == n);
+                        Ok((&input[k..], Header::VN(b.vn(Vec::new()))))
+                    }
+                    LongTy::V1(v) => match *v {
+                        crate::packet::r#type::long::v1::Type::Retry => {
+                            kani::assume(k == n && n >= 18);
+                            Ok((&input[k..], Header::Retry(b.retry(Vec::new(), kani::any()))))
+                        }
+                        crate::packet::r#type::long::v1::Type::Initial => {
+                            kani::assume(k >= 3);
+                            Ok((&input[k..], Header::Initial(b.initial(Vec::new()))))
+                        }
+                        crate::packet::r#type::long::v1::Type::ZeroRtt => Ok((&input[k..], Header::ZeroRtt(b.zero_rtt()))),
+                        crate::packet::r#type::long::v1::Type::Handshake => Ok((&input[k..], Header::Handshake(b.handshake()))),
+                    },
+                }
+            }
+        }
+    }
+
+    /// the result the header_*_contract harnesses prove for a long header whose DCID/SCID length byte is
+    /// above 20 [error_iff_cid_len_over_20]
+    fn contract_be_header_cid_too_long(packet_type: Type, _dcid_len: usize, input: &[u8]) -> nom::IResult<&[u8], Header> {
+        kani::assume(matches!(packet_type, Type::Long(_)));
+        Err(nom::Err::Error(nom::error::make_error(input, nom::error::ErrorKind::TooLarge)))
+    }
+
+    fn glue_body<const M: usize>() {
+        let b: [u8; M] = kani::any();
+        let n: usize = kani::any();
+        kani::assume(n <= M);
+        let dcid_len: usize = kani::any();
+        kani::assume(dcid_len <= 20); // precondition of be_one_rtt_header; the only caller passes 8
+        let mut dg = BytesMut::from(&b[..]);
+        dg.truncate(n);
+        let mut rd = PacketReader::new(dg, dcid_len);
+        match rd.next() {
+            None => assert!(n == 0, "C03.packet.reader.none_iff_datagram_exhausted"),
+            Some(r) => {
+                assert!(n > 0, "C03.packet.reader.none_iff_datagram_exhausted");
+                let left = rd.raw_bytes.len();
+                // progress: the reader can be polled at most n times ("never loops without consuming")
+                assert!(left < n, "C03.packet.reader.every_step_consumes_input");
+                match r {
+                    Ok(Packet::Data(p)) => {
+                        // == precondition of remove_protection_of_{long,short}_packet (decrypt harness)
+                        assert!(p.offset >= 1, "C03.packet.be_packet.data.offset_ge_1");
+                        assert!(p.offset + 20 <= p.bytes.len(), "C03.packet.be_packet.data.offset_plus_20_inside_packet");
+                        assert!(p.bytes.len() + left == n, "C03.packet.be_packet.data.splits_datagram_without_loss");
+                        let i: usize = kani::any();
+                        assert!(i >= p.bytes.len() || p.bytes[i] == b[i], "C03.packet.be_packet.data.packet_bytes_are_datagram_prefix");
+                        let j: usize = kani::any();
+                        assert!(j >= left || rd.raw_bytes[j] == b[p.bytes.len() + j], "C03.packet.be_packet.data.rest_is_datagram_suffix");
+                        if let DataHeader::Short(_) = p.header {
+                            assert!(left == 0 && p.offset == 1 + dcid_len, "C03.packet.be_packet.short.takes_rest_of_datagram");
+                        }
+                        kani::cover!(matches!(p.header, DataHeader::Short(_)), "C03.packet.be_packet.reach_short");
+                        kani::cover!(matches!(p.header, DataHeader::Long(long::DataHeader::Initial(_))) && left > 0, "C03.packet.be_packet.reach_initial_coalesced");
+                        kani::cover!(matches!(p.header, DataHeader::Long(long::DataHeader::Handshake(_))), "C03.packet.be_packet.reach_handshake");
+                        kani::cover!(matches!(p.header, DataHeader::Long(long::DataHeader::ZeroRtt(_))), "C03.packet.be_packet.reach_zero_rtt");
+                    }
+                    Ok(Packet::VN(_)) | Ok(Packet::Retry(_)) => assert!(left == 0, "C03.packet.be_packet.vn_retry_consume_datagram"),
+                    Err(e) => {
+                        // "a malformed datagram is simply dropped"
+                        assert!(left == 0, "C03.packet.reader.error_drops_rest_of_datagram");
+                        assert!(
+                            matches!(e, Error::IncompleteType(_) | Error::IncompleteHeader(..) | Error::UnderSampling(..) | Error::InvalidFixedBit | Error::UnsupportedVersion(_)),
+                            "C03.packet.be_packet.err_is_a_drop_reason"
+                        );
+                        kani::cover!(matches!(e, Error::UnderSampling(_, 19)), "C03.packet.be_packet.reach_under_sampling_19");
+                        kani::cover!(matches!(e, Error::IncompleteHeader(..)), "C03.packet.be_packet.reach_incomplete_header");
+                    }
+                }
+            }
+        }
+    }
+
+    /// REAL `PacketReader::next` -> REAL `be_packet` (its three `unreachable!` arms, `be_payload`, all
+    /// BytesMut handling), callee parsers replaced by their contracts.
+    #[kani::proof]
+    #[kani::unwind(9)]
+    #[kani::stub(core::fmt::write, noop_fmt_write)]
+    #[kani::stub(be_packet_type, contract_be_packet_type)]
+    #[kani::stub(be_header, contract_be_header_legal)]
+    fn be_packet_glue_contract() {
+        //   "C03.packet.reader.none_iff_datagram_exhausted" "C03.packet.reader.every_step_consumes_input"
+        //   "C03.packet.be_packet.data.offset_ge_1" "C03.packet.be_packet.data.offset_plus_20_inside_packet"
+        //   "C03.packet.be_packet.data.splits_datagram_without_loss" "C03.packet.be_packet.data.packet_bytes_are_datagram_prefix"
+        //   "C03.packet.be_packet.data.rest_is_datagram_suffix" "C03.packet.be_packet.short.takes_rest_of_datagram"
+        //   "C03.packet.be_packet.vn_retry_consume_datagram" "C03.packet.reader.error_drops_rest_of_datagram"
+        //   "C03.packet.be_packet.err_is_a_drop_reason"
+        glue_body::<48>();
+    }
+
+    /// KNOWN FINDING (confined): a long header whose DCID or SCID length byte exceeds 20. RFC 9000 §17.2:
+    /// the packet MUST be dropped. be_header reports it as nom::Err::Error(TooLarge) (proved:
+    /// C03.packet.header.long.error_iff_cid_len_over_20); be_packet maps every non-Incomplete error of
+    /// be_header to `unreachable!("parsing packet header never generates error or failure")` => panic in
+    /// the receive task on a 6-byte datagram, before any authentication.
+    /// Same glue harness as above, be_header replaced by exactly that proved result.
+    #[kani::proof]
+    #[kani::unwind(9)]
+    #[kani::stub(core::fmt::write, noop_fmt_write)]
+    #[kani::stub(be_packet_type, contract_be_packet_type)]
+    #[kani::stub(be_header, contract_be_header_cid_too_long)]
+    fn be_packet_cid_len_over_20() {
+        glue_body::<8>();
+    }
+
+    /// the same finding on the unmodified call chain (no stubs except message formatting), datagram
+    /// c0 00 00 00 01 <x> with x > 20 (thorough tier: ~5 min of symbolic execution through BytesMut)
+    #[kani::proof]
+    #[kani::unwind(9)]
+    #[kani::stub(core::fmt::write, noop_fmt_write)]
+    fn be_packet_cid_len_over_20_unstubbed() {
+        let mut b = [0xC0u8, 0, 0, 0, 1, 21];
+        let x: u8 = kani::any();
+        kani::assume(x > 20);
+        b[5] = x;
+        let mut dg = BytesMut::from(&b[..]);
+        let r = be_packet(&mut dg, 8);
+        assert!(r.is_err(), "C03.packet.be_packet.cid_len_over_20.is_dropped");
+    }
+
+    // ---- harness entry points for the per-type header contracts -------------------------------
+    #[kani::proof]
+    #[kani::unwind(3)]
+    fn header_handshake_zero_rtt_contract() {
+        // clauses established through the generic body (listed so that the runner attributes them):
+        //   "C03.packet.header.hs0rtt.incomplete_iff_cids_truncated"
+        //   "C03.packet.header.hs0rtt.rest_starts_behind_scid"
+        //   "C03.packet.header.hs0rtt.variant_matches_type"
+        //   "C03.packet.header.long.cid_len_over_20_is_not_incomplete"
+        //   "C03.packet.header.long.dcid_is_wire_bytes"
+        //   "C03.packet.header.long.error_iff_cid_len_over_20"
+        //   "C03.packet.header.long.never_yields_short_header"
+        //   "C03.packet.header.long.no_failure"
+        //   "C03.packet.header.long.ok_only_if_both_cids_present_and_le_20"
+        //   "C03.packet.header.long.scid_is_wire_bytes"
+        //   "C03.packet.header.long.sup.error_kind_too_large"
+        header_handshake_zero_rtt_contract_body::<30>();
+    }
+
+    /// the same contract on the larger input bound (thorough tier)
+    #[kani::proof]
+    #[kani::unwind(3)]
+    fn header_handshake_zero_rtt_contract_full() {
+        //   "C03.packet.header.hs0rtt.incomplete_iff_cids_truncated"
+        //   "C03.packet.header.hs0rtt.rest_starts_behind_scid"
+        //   "C03.packet.header.hs0rtt.variant_matches_type"
+        //   "C03.packet.header.long.cid_len_over_20_is_not_incomplete"
+        //   "C03.packet.header.long.dcid_is_wire_bytes"
+        //   "C03.packet.header.long.error_iff_cid_len_over_20"
+        //   "C03.packet.header.long.never_yields_short_header"
+        //   "C03.packet.header.long.no_failure"
+        //   "C03.packet.header.long.ok_only_if_both_cids_present_and_le_20"
+        //   "C03.packet.header.long.scid_is_wire_bytes"
+        //   "C03.packet.header.long.sup.error_kind_too_large"
+        header_handshake_zero_rtt_contract_body::<46>();
+    }
+
+    #[kani::proof]
+    #[kani::unwind(9)]
+    fn header_initial_contract() {
+        // clauses established through the generic body (listed so that the runner attributes them):
+        //   "C03.packet.header.initial.err_if_cids_bad"
+        //   "C03.packet.header.initial.err_is_incomplete_when_cids_ok"
+        //   "C03.packet.header.initial.incomplete_only_if_token_truncated"
+        //   "C03.packet.header.initial.ok_only_if_token_available"
+        //   "C03.packet.header.initial.rest_starts_behind_token"
+        //   "C03.packet.header.initial.token_is_wire_bytes"
+        //   "C03.packet.header.initial.token_len_is_wire_len"
+        //   "C03.packet.header.initial.variant_matches_type"
+        //   "C03.packet.header.long.cid_len_over_20_is_not_incomplete"
+        //   "C03.packet.header.long.dcid_is_wire_bytes"
+        //   "C03.packet.header.long.error_iff_cid_len_over_20"
+        //   "C03.packet.header.long.never_yields_short_header"
+        //   "C03.packet.header.long.no_failure"
+        //   "C03.packet.header.long.ok_only_if_both_cids_present_and_le_20"
+        //   "C03.packet.header.long.scid_is_wire_bytes"
+        //   "C03.packet.header.long.sup.error_kind_too_large"
+        header_initial_contract_body::<34>();
+    }
+
+    /// the same contract on the larger input bound (thorough tier)
+    #[kani::proof]
+    #[kani::unwind(9)]
+    fn header_initial_contract_full() {
+        //   "C03.packet.header.initial.err_if_cids_bad"
+        //   "C03.packet.header.initial.err_is_incomplete_when_cids_ok"
+        //   "C03.packet.header.initial.incomplete_only_if_token_truncated"
+        //   "C03.packet.header.initial.ok_only_if_token_available"
+        //   "C03.packet.header.initial.rest_starts_behind_token"
+        //   "C03.packet.header.initial.token_is_wire_bytes"
+        //   "C03.packet.header.initial.token_len_is_wire_len"
+        //   "C03.packet.header.initial.variant_matches_type"
+        //   "C03.packet.header.long.cid_len_over_20_is_not_incomplete"
+        //   "C03.packet.header.long.dcid_is_wire_bytes"
+        //   "C03.packet.header.long.error_iff_cid_len_over_20"
+        //   "C03.packet.header.long.never_yields_short_header"
+        //   "C03.packet.header.long.no_failure"
+        //   "C03.packet.header.long.ok_only_if_both_cids_present_and_le_20"
+        //   "C03.packet.header.long.scid_is_wire_bytes"
+        //   "C03.packet.header.long.sup.error_kind_too_large"
+        header_initial_contract_body::<56>();
+    }
+
+    #[kani::proof]
+    #[kani::unwind(3)]
+    fn header_retry_contract() {
+        // clauses established through the generic body (listed so that the runner attributes them):
+        //   "C03.packet.header.retry.consumes_whole_datagram"
+        //   "C03.packet.header.retry.err_if_cids_bad"
+        //   "C03.packet.header.retry.err_is_incomplete_when_cids_ok"
+        //   "C03.packet.header.retry.incomplete_only_if_no_tag"
+        //   "C03.packet.header.retry.ok_only_if_tag_present"
+        //   "C03.packet.header.retry.tag_is_last_16_bytes"
+        //   "C03.packet.header.retry.token_is_all_but_tag"
+        //   "C03.packet.header.retry.token_is_wire_bytes"
+        //   "C03.packet.header.retry.variant_matches_type"
+        //   "C03.packet.header.long.cid_len_over_20_is_not_incomplete"
+        //   "C03.packet.header.long.dcid_is_wire_bytes"
+        //   "C03.packet.header.long.error_iff_cid_len_over_20"
+        //   "C03.packet.header.long.never_yields_short_header"
+        //   "C03.packet.header.long.no_failure"
+        //   "C03.packet.header.long.ok_only_if_both_cids_present_and_le_20"
+        //   "C03.packet.header.long.scid_is_wire_bytes"
+        //   "C03.packet.header.long.sup.error_kind_too_large"
+        header_retry_contract_body::<44>();
+    }
+
+    /// the same contract on the larger input bound (thorough tier)
+    #[kani::proof]
+    #[kani::unwind(3)]
+    fn header_retry_contract_full() {
+        //   "C03.packet.header.retry.consumes_whole_datagram"
+        //   "C03.packet.header.retry.err_if_cids_bad"
+        //   "C03.packet.header.retry.err_is_incomplete_when_cids_ok"
+        //   "C03.packet.header.retry.incomplete_only_if_no_tag"
+        //   "C03.packet.header.retry.ok_only_if_tag_present"
+        //   "C03.packet.header.retry.tag_is_last_16_bytes"
+        //   "C03.packet.header.retry.token_is_all_but_tag"
+        //   "C03.packet.header.retry.token_is_wire_bytes"
+        //   "C03.packet.header.retry.variant_matches_type"
+        //   "C03.packet.header.long.cid_len_over_20_is_not_incomplete"
+        //   "C03.packet.header.long.dcid_is_wire_bytes"
+        //   "C03.packet.header.long.error_iff_cid_len_over_20"
+        //   "C03.packet.header.long.never_yields_short_header"
+        //   "C03.packet.header.long.no_failure"
+        //   "C03.packet.header.long.ok_only_if_both_cids_present_and_le_20"
+        //   "C03.packet.header.long.scid_is_wire_bytes"
+        //   "C03.packet.header.long.sup.error_kind_too_large"
+        header_retry_contract_body::<64>();
+    }
+
+    #[kani::proof]
+    #[kani::unwind(9)]
+    fn header_vn_contract() {
+        // clauses established through the generic body (listed so that the runner attributes them):
+        //   "C03.packet.header.vn.consumes_whole_datagram"
+        //   "C03.packet.header.vn.err_if_cids_bad"
+        //   "C03.packet.header.vn.err_is_incomplete_when_cids_ok"
+        //   "C03.packet.header.vn.incomplete_only_if_partial_version"
+        //   "C03.packet.header.vn.ok_only_if_whole_versions"
+        //   "C03.packet.header.vn.variant_matches_type"
+        //   "C03.packet.header.vn.version_count"
+        //   "C03.packet.header.vn.versions_are_wire_words"
+        //   "C03.packet.header.long.cid_len_over_20_is_not_incomplete"
+        //   "C03.packet.header.long.dcid_is_wire_bytes"
+        //   "C03.packet.header.long.error_iff_cid_len_over_20"
+        //   "C03.packet.header.long.never_yields_short_header"
+        //   "C03.packet.header.long.no_failure"
+        //   "C03.packet.header.long.ok_only_if_both_cids_present_and_le_20"
+        //   "C03.packet.header.long.scid_is_wire_bytes"
+        //   "C03.packet.header.long.sup.error_kind_too_large"
+        header_vn_contract_body::<22>();
+    }
+
+    /// the same contract on the larger input bound (thorough tier)
+    #[kani::proof]
+    #[kani::unwind(9)]
+    fn header_vn_contract_full() {
+        //   "C03.packet.header.vn.consumes_whole_datagram"
+        //   "C03.packet.header.vn.err_if_cids_bad"
+        //   "C03.packet.header.vn.err_is_incomplete_when_cids_ok"
+        //   "C03.packet.header.vn.incomplete_only_if_partial_version"
+        //   "C03.packet.header.vn.ok_only_if_whole_versions"
+        //   "C03.packet.header.vn.variant_matches_type"
+        //   "C03.packet.header.vn.version_count"
+        //   "C03.packet.header.vn.versions_are_wire_words"
+        //   "C03.packet.header.long.cid_len_over_20_is_not_incomplete"
+        //   "C03.packet.header.long.dcid_is_wire_bytes"
+        //   "C03.packet.header.long.error_iff_cid_len_over_20"
+        //   "C03.packet.header.long.never_yields_short_header"
+        //   "C03.packet.header.long.no_failure"
+        //   "C03.packet.header.long.ok_only_if_both_cids_present_and_le_20"
+        //   "C03.packet.header.long.scid_is_wire_bytes"
+        //   "C03.packet.header.long.sup.error_kind_too_large"
+        header_vn_contract_body::<30>();
+    }
+
+    #[kani::proof]
+    #[kani::unwind(3)]
+    fn header_short_contract() {
+        // clauses established through the generic body (listed so that the runner attributes them):
+        //   "C03.packet.header.short.dcid_is_wire_bytes"
+        //   "C03.packet.header.short.err_is_incomplete_only"
+        //   "C03.packet.header.short.incomplete_only_if_dcid_truncated"
+        //   "C03.packet.header.short.ok_only_if_dcid_available"
+        //   "C03.packet.header.short.rest_starts_behind_dcid"
+        //   "C03.packet.header.short.spin_from_type"
+        //   "C03.packet.header.short.variant_matches_type"
+        header_short_contract_body::<24>();
     }
 }
